@@ -3,6 +3,7 @@ import copy
 import itertools
 import json
 import os
+import re
 
 import vlib
 from vlib import gN, gbool, glist
@@ -21,23 +22,27 @@ SHARD = 60
 RULE = ('one case = backend (dict / directory / zip / caching wrapper) x failure-free history on one PulseStorage '
         '(stores, clear, deletes) x final store / overwrite / delete, executed on the real code once without failure '
         'and once for EVERY mutating primitive (open-for-write, file write [raise or half-written], os.remove/rename/'
-        'replace, mkstemp, ZipFile.writestr, backend.put/delete for the dict backend) failing; small-scope exhaustive '
+        'replace, mkstemp, ZipFile.writestr, backend.put/delete for the dict backend; on a quarter of the cases also '
+        'every read primitive) raising, and on a share of the fs / zip cases once per position with the PROCESS '
+        'KILLED there (forked child, os._exit, buffered data lost or flushed; observed by new objects); small-scope exhaustive '
         'enumeration of child lists over {new leaf, new subtree, cached object, same object twice, identifier that '
         'exists but is not cached, second object with a used identifier, un-serializable leaf} plus random templates '
         'with named children / anonymous wrappers on pre-populated storages.  Non-trivial = at least two crash '
         'positions or a pre-write failure; distinct = distinct canonical JSON of the case.')
 TRUSTED = [
     'Coq 8.16.1 kernel + vm_compute',
-    'harness fault injector (patches builtins.open / file.write / os.remove,rename,replace / tempfile.mkstemp / '
-    'zipfile.ZipFile.writestr / backend.put,delete): a primitive the code performs through another API is not a '
-    'fault position',
+    'harness fault injector (patches builtins.open / file.write,close / os.remove,rename,replace / tempfile.mkstemp / '
+    'zipfile.ZipFile.__init__,open,writestr,write,close / backend.put,delete): a primitive the code performs through '
+    'another API is not a fault position; kill runs use os.fork + os._exit (the child inherits the PulseStorage), the '
+    'observation afterwards uses new backend / PulseStorage objects in the parent',
     'harness document parser (payload = first measurement name, references in document order)',
     'CPython json / zipfile / os behave as documented; os.replace is atomic',
 ]
 ASSUMPTIONS = [
-    'single injected failure per operation; after it the code runs on normally (exception semantics)',
-    'only the order of system calls is modelled: no fsync / power-loss reordering; a ZipFile append (writestr + close '
-    'on an archive opened with mode "a") is treated as one atomic step',
+    'single injected failure per operation: either the primitive raises and the code runs on (exception semantics) or '
+    'the process stops before it (kill semantics; everything handed to file objects before is either lost or '
+    'completely on disk)',
+    'only the order of system calls is modelled: no fsync / power-loss reordering',
     'templates are trees of named objects over ConstantPT / FunctionPT / SequencePT / RepetitionPT; the storage is '
     'only modified through PulseStorage (cached objects are in the backend)',
 ]
@@ -309,6 +314,8 @@ def gen_cases(rng, tier, ctx):
             add_post(c, rng)
         # kill runs (process stops at every position, two flush modes) are expensive: on a share of the cases
         c['kill'] = c['backend'] != 'dict' and (rng.random() < KILL_SHARE[tier] or c['note'] in ('cycle', 'enum delete'))
+        # read primitives as fault positions (exception semantics) on a share of the cases
+        c['reads'] = c['backend'] != 'dict' and rng.random() < 0.25
         # 'noflush': data the process only handed to python file objects are lost; 'flush': they reached the disk
         c['kill_modes'] = rng.choice([['flush'], ['flush'], ['noflush']] + ([['noflush', 'flush']] if tier == 'thorough' else []))
     return cases
@@ -377,7 +384,8 @@ def _kill_positions(obs):
 
 def histogram_keys(case, obs):
     keys = ['backend:' + case['backend'], 'final:' + case['final']['op'], 'fault:' + case.get('fault', 'raise'),
-            'followup:' + (case['post']['op'] if case.get('post') else 'none')]
+            'followup:' + (case['post']['op'] if case.get('post') else 'none'),
+            'read_positions:' + ('yes' if case.get('reads') else 'no')]
     if 'crashes' in obs:
         n = len(obs['crashes'])
         keys.append('outcome:' + obs['outcome'])
@@ -503,9 +511,48 @@ def spec_failures(case, obs):
     return out
 
 
+# classification (exact): `finding_of` in Corr.v decides, for a case the specification rejects, whether the
+# implementation behaved exactly as the model predicts AND some operation of the case is outside a guard in the model.
+# It is evaluated in Coq, in one batch for all rejected cases of a run (collected by py_spec, which runs first).
+FINDINGS = {1: 'dup-id-in-transaction', 2: 'overwrite-creates-cycle'}
+_PENDING = {}
+_FINDING = {}
+
+
+def _key(case, obs):
+    return vlib.canonical_hash([case, obs])
+
+
+def _eval_findings(extra):
+    todo = dict(_PENDING)
+    todo.update(extra)
+    _PENDING.clear()
+    todo = {k: t for k, t in todo.items() if k not in _FINDING}
+    if not todo:
+        return
+    keys = sorted(todo)
+    workdir = os.path.join(vlib.BUILD, 'c11_classify.%d' % os.getpid())
+    try:
+        for start in range(0, len(keys), 40):
+            chunk = keys[start:start + 40]
+            try:
+                txt = vlib.coq_eval(workdir, CORR_IMPORTS, 'map finding_of [%s]' % ';\n'.join(todo[k] for k in chunk))
+                codes = [int(x) for x in re.findall(r'(\d+)(?:%N)?', txt)]
+            except Exception:
+                codes = []
+            if len(codes) != len(chunk):
+                codes = [0] * len(chunk)        # fail closed: not attributed to any known finding
+            for k, cd in zip(chunk, codes):
+                _FINDING[k] = cd
+    finally:
+        vlib.rmtree(workdir)
+
+
 def py_spec(case, obs):
     fl = spec_failures(case, obs)
     if fl:
+        if 'crashes' in obs:
+            _PENDING[_key(case, obs)] = to_coq(case, obs)
         return '; '.join('%s: (%s) %s' % x for x in fl[:3])
     return None
 
@@ -514,18 +561,10 @@ def classify(case, obs):
     fl = spec_failures(case, obs)
     if not fl or 'crashes' not in obs:
         return None
-    if not _consistent(case):
-        return 'dup-id-in-transaction'
-    if _has_cycle(obs):
-        return 'overwrite-creates-cycle'
-    wheres = {w for w, _, _ in fl}
-    if wheres == {'no-failure run'} or any(cl == 'c' for _, cl, _ in fl):
-        return None
-    if case['backend'] in ('fs', 'cfs'):
-        return 'fs-put-truncates'
-    if case['backend'] == 'zip':
-        return 'zip-update-not-atomic'
-    return None
+    k = _key(case, obs)
+    if k not in _FINDING:
+        _eval_findings({k: to_coq(case, obs)})
+    return FINDINGS.get(_FINDING.get(k, 0))
 
 
 def shrink(case, obs, ctx):
@@ -565,28 +604,41 @@ def search_failing(ctx, broken):
     near = ctx.get('near')
     if near:
         cases.sort(key=lambda c: (c['backend'] != near['backend'], c['final']['op'] != near['final']['op']))
+    failing = []
     for c in cases[:700]:
         o = run_impl(c)
         fl = spec_failures(c, o)
-        if fl and classify(c, o) not in known:
+        if fl:
+            failing.append((c, o, fl))
+            if 'crashes' in o:
+                _PENDING[_key(c, o)] = to_coq(c, o)
+    for c, o, fl in failing:
+        if classify(c, o) not in known:
             return c, o, '%s: (%s) %s' % fl[0]
     return None
 
 
 MANIFEST = {
-    'level_text': 'Proof (Coq, unbounded in storage content, template size and crash position) over a step model of the '
-                  'three storage backends and of PulseStorage store / overwrite / delete with its transaction buffer: '
-                  'after every prefix of the primitive steps the archive exists, every listed document is complete and '
-                  'every reference is listed, every identifier holds old or new content, and nothing changes before '
-                  'the first publishing step.  The model is tied to /repo on every run by fault injection at every '
-                  'mutating primitive of the real backends (plus a follow-up operation on the same PulseStorage).',
-    'level_note': 'Partial: clause (a) is proved as closedness (complete documents, references listed); recursive '
-                  'loadability additionally needs acyclicity, which the unchanged code does not guarantee (known finding '
-                  'overwrite-creates-cycle) - it is checked on every observed state, not proved.  Guard: one identifier '
-                  'names one document inside the stored template (known finding dup-id-in-transaction).  Only the order '
-                  'of system calls is modelled (no fsync / power loss; a zip append is one step).  Trusted: Coq kernel, '
-                  'the harness fault injector and document parser, CPython os / zipfile.',
-    'technique': 'Coq proof (induction over the primitive step list and the transaction buffer) + fault-injection '
-                 'correspondence check',
+    'level_text': 'Proof (Coq, unbounded in storage content, template size, crash position and history length) over a '
+                  'step model of the three storage backends and of PulseStorage store / overwrite / delete with its '
+                  'transaction buffer: after every prefix of the primitive steps - whether the failing primitive raises '
+                  'and the clean-up clauses run, or the process is killed and nothing else runs - the archive exists, '
+                  'every listed identifier loads recursively, every identifier holds old or new content, and nothing '
+                  'changes before the first publishing step (C11_crash_safe, C11_crash_safe_kill_or_raise); the '
+                  'hypotheses are an invariant of histories of completed / failed / killed operations '
+                  '(C11_history_safe).  The model is tied to /repo on every run by fault injection at every mutating '
+                  '(and, on a share of the cases, reading) primitive of the real backends, by kill runs (forked child '
+                  'stops before every position, observation and follow-up operation by new objects) and a follow-up '
+                  'operation after every failure.',
+    'level_note': 'Full proof under two executable guards that are necessary for the unchanged code (refutation '
+                  'theorems; known findings dup-id-in-transaction and overwrite-creates-cycle): one identifier names one '
+                  'document inside the stored template; no written identifier is reachable in the old storage from an '
+                  'unwritten identifier the new documents refer to.  Only the order of system calls is modelled (no '
+                  'fsync / power-loss reordering); kills happen at hooked positions only.  Trusted: Coq kernel, the '
+                  'harness fault injector / fork-based kill runs and document parser, CPython os / zipfile, atomicity '
+                  'of os.replace.',
+    'technique': 'Coq proof (induction over the primitive step list, the transaction buffer and the template; rank / '
+                 'pigeonhole argument for recursive loadability; invariant over histories) + fault-injection and '
+                 'kill-run correspondence check',
     'design_ref': 'DESIGN.md §5 C11',
 }
